@@ -83,6 +83,11 @@ class Blocks(ArrayExpr):
     def _meta(self):
         return self.array._meta
 
+    def _requires_grid_preservation(self, dependency):
+        # ``index`` addresses blocks of the grid the source advertised when
+        # ``x.blocks[...]`` was written.
+        return True
+
     @functools.cached_property
     def chunks(self):
         """Compute chunks by selecting from the source array's chunks."""
